@@ -96,17 +96,19 @@ fn hs_props(u: &mut U) -> HsProps {
 }
 
 fn sel(u: &mut U) -> Sel {
-    match u.u8() % 4 {
-        0 | 1 => Sel::Live(u.u16()),
+    match u.u8() % 5 {
+        0 | 1 => Sel::LiveOnly(u.u16()),
+        4 => Sel::Live(u.u16()),
         2 => Sel::Wrong(u.u16()),
         _ => Sel::Arb(u.pick(&[0u32, 1, 2, 3, 65535, u32::MAX])),
     }
 }
 
 fn alias(u: &mut U) -> AliasMode {
-    match u.u8() % 4 {
+    match u.u8() % 6 {
         0 | 1 => AliasMode::None,
-        2 => AliasMode::Bind((u.u8() % 5) as u16),
+        2 | 3 => AliasMode::Bind((u.u8() % 5) as u16),
+        4 => AliasMode::UseLive(u.u16()),
         _ => AliasMode::Use((u.u8() % 5) as u16),
     }
 }
@@ -117,11 +119,15 @@ pub struct Domain {
     pub hostile: bool,
     pub undetermined: bool,
     pub v5_only: bool,
+    /// local publishes may use an alias with an empty topic (only the checks whose model resolves aliases: C13, and the monitors)
+    pub alias_use: bool,
+    /// the check's own generator profile (op classes with weight 0 are dropped)
+    pub profile: Option<crate::hist::Profile>,
 }
 
 /// decode bytes into a connection history over the op alphabet of scn.rs
 pub fn decode_history(data: &[u8]) -> History {
-    decode_history_in(data, Domain { hostile: true, undetermined: true, v5_only: false })
+    decode_history_in(data, Domain { hostile: true, undetermined: true, v5_only: false, alias_use: true, profile: None })
 }
 
 pub fn decode_history_in(data: &[u8], dom: Domain) -> History {
@@ -139,9 +145,9 @@ pub fn decode_history_in(data: &[u8], dom: Domain) -> History {
             1 => Op::PeerConnack(ConnackArgs { sp: u.bool(), fail: u.pick(&[0u8, 0, 0, 1]), p: hs_props(&mut u) }),
             2 => Op::PeerConnect(ConnectArgs { clean: u.bool(), keep_alive: u.pick(&[0u16, 1, 10]), p: HsProps { ska: None, ..hs_props(&mut u) } }),
             3 => Op::Connack(ConnackArgs { sp: u.bool(), fail: u.pick(&[0u8, 0, 0, 1]), p: hs_props(&mut u) }),
-            4 | 5 => Op::Publish { qos: u.u8() % 3, topic: u.u8() % 4, alias: alias(&mut u), plen: u.u8() % 6, retain: u.bool(), id: u.pick(&[IdSrc::Acquire, IdSrc::Acquire, IdSrc::Held(0), IdSrc::Free(7)]) },
+            4 | 5 => Op::Publish { qos: u.u8() % 3, topic: u.u8() % 4, alias: alias(&mut u), plen: u.pick(&[0u8, 1, 2, 3, 4, 5, 30, 36, 42, 48]), retain: u.bool(), id: u.pick(&[IdSrc::Acquire, IdSrc::Acquire, IdSrc::Held(0), IdSrc::Free(7)]) },
             6 | 7 => Op::PeerPublish { qos: u.u8() % 3, id: sel(&mut u), dup: u.bool(), topic: u.u8() % 4, alias: alias(&mut u), plen: u.u8() % 6 },
-            8 => Op::Ack { kind: u.pick(&ALL_ACKS), sel: sel(&mut u), rc: u.u8() % 4 },
+            8 => Op::Ack { kind: u.pick(&ALL_ACKS), sel: sel(&mut u), rc: u.pick(&[0u8, 0, 1, 2, 3, 17, 33, 50]) },
             9 | 10 => Op::PeerAck { kind: u.pick(&ALL_ACKS), sel: sel(&mut u), rc: u.u8() % 4 },
             11 => Op::Subscribe { id: IdSrc::Acquire, n: u.u8() % 3 },
             12 => Op::Unsubscribe { id: IdSrc::Acquire, n: u.u8() % 3 },
@@ -150,7 +156,7 @@ pub fn decode_history_in(data: &[u8], dom: Domain) -> History {
             15 => Op::PeerSubscribe { id: (u.u8() % 6) as u32, n: u.u8() % 3 },
             16 => Op::Suback { sel: sel(&mut u) },
             17 => u.pick(&[Op::Pingreq, Op::Pingresp, Op::PeerPingreq, Op::PeerPingresp]),
-            18 => Op::Disconnect { rc: u.u8() % 4 },
+            18 => Op::Disconnect { rc: u.pick(&[0u8, 0, 1, 2, 3, 20, 28, 30]) },
             19 => Op::PeerDisconnect { rc: u.u8() % 4 },
             20 => u.pick(&[Op::AcquireId, Op::RegisterId { v: 0 }, Op::RegisterId { v: 1 }, Op::RegisterId { v: 65535 }]),
             21 => Op::ReleaseId { sel: sel(&mut u) },
@@ -179,6 +185,30 @@ pub fn decode_history_in(data: &[u8], dom: Domain) -> History {
         };
         ops.push(op);
     }
+    // the op classes a check's own generator never produces (weight 0 in its profile) are outside the domain its model
+    // was written for: they are dropped here as well
+    if let Some(p) = dom.profile {
+        ops.retain(|op| match op {
+            Op::AcquireId | Op::RegisterId { .. } | Op::ReleaseId { .. } => p.ids > 0,
+            Op::Erase { .. } => p.erase > 0,
+            Op::Subscribe { .. } | Op::Unsubscribe { .. } | Op::Suback { .. } | Op::Unsuback { .. } | Op::PeerSubscribe { .. } | Op::PeerUnsubscribe { .. } | Op::PeerSuback { .. } | Op::PeerUnsuback { .. } => p.sub > 0,
+            Op::Pingreq | Op::Pingresp | Op::PeerPingreq | Op::PeerPingresp => p.ping > 0,
+            Op::Auth { .. } | Op::PeerAuth { .. } => p.auth > 0,
+            Op::Fire(_) => p.timers > 0,
+            Op::SetOpt(_) => p.opts > 0,
+            Op::Chunk(_) => p.chunk > 0,
+            _ => true,
+        });
+    }
+    if !dom.alias_use {
+        for op in ops.iter_mut() {
+            if let Op::Publish { alias, .. } = op {
+                if matches!(alias, AliasMode::Use(_) | AliasMode::UseLive(_)) {
+                    *alias = AliasMode::None;
+                }
+            }
+        }
+    }
     History { cfg, ops, disciplined: !dom.hostile }
 }
 
@@ -186,12 +216,18 @@ pub fn decode_history_in(data: &[u8], dom: Domain) -> History {
 pub const CONN_CHECKS: [&str; 10] = ["C05", "C06", "C07", "C08", "C12", "C13", "C14", "C15", "C19", "ALL"];
 
 fn domain_of(check: &str) -> Domain {
-    match check {
-        "C05" | "C19" => Domain { hostile: true, undetermined: true, v5_only: false },
-        "C08" | "C15" => Domain { hostile: false, undetermined: true, v5_only: false },
-        "C12" | "C13" | "C14" => Domain { hostile: false, undetermined: false, v5_only: true },
-        _ => Domain { hostile: false, undetermined: false, v5_only: false },
-    }
+    let (hostile, undetermined, v5_only, profile) = match check {
+        "C05" => (true, true, false, c05::profile()),
+        "C19" => (true, true, false, c19::profile()),
+        "C08" => (false, true, false, c08::profile()),
+        "C15" => (false, true, false, c15::profile()),
+        "C12" => (false, false, true, c12::profile()),
+        "C13" => (false, false, true, c13::profile()),
+        "C14" => (false, false, true, c14::profile()),
+        "C07" => (false, false, false, c07::profile()),
+        _ => (false, false, false, c06::profile()),
+    };
+    Domain { hostile, undetermined, v5_only, alias_use: profile.alias_use, profile: Some(profile) }
 }
 
 /// the history is decoded from the bytes; the monitor / model of the selected property decides
